@@ -80,6 +80,8 @@ type recorder struct {
 	stmts  int
 	writes []string
 	real   *coordinator.StatementExecutor // the real executor, used for the statements that filter by grants
+	// userStmts: hand GRANT/REVOKE/SET PASSWORD/DROP USER to the real executor (session steps only)
+	userStmts bool
 }
 
 func (r *recorder) ExecuteStatement(ctx *query.ExecutionContext, stmt influxql.Statement) error {
@@ -89,8 +91,45 @@ func (r *recorder) ExecuteStatement(ctx *query.ExecutionContext, stmt influxql.S
 	switch stmt.(type) {
 	case *influxql.ShowDatabasesStatement, *influxql.ShowContinuousQueriesStatement:
 		return r.real.ExecuteStatement(ctx, stmt)
+	case *influxql.GrantStatement, *influxql.RevokeStatement, *influxql.GrantAdminStatement, *influxql.RevokeAdminStatement,
+		*influxql.SetPasswordUserStatement, *influxql.DropUserStatement:
+		if r.userStmts {
+			return r.real.ExecuteStatement(ctx, stmt)
+		}
 	}
 	return nil
+}
+
+// execMeta is the MetaClient of the real coordinator.StatementExecutor: reads come from the real
+// meta.Client (the node's view); the user-management writes are applied with the real data.go
+// operations to the meta-store value and the result is installed on the node through the client's
+// own update loop before the call returns.
+type execMeta struct {
+	*meta.Client
+	e *env
+}
+
+func (m *execMeta) apply(f func(d *meta.Data) error) error {
+	if m.e.master == nil {
+		return nil
+	}
+	if err := f(m.e.master); err != nil {
+		return err
+	}
+	m.e.publish(m.e.master.Clone())
+	return nil
+}
+func (m *execMeta) SetPrivilege(username, database string, p influxql.Privilege) error {
+	return m.apply(func(d *meta.Data) error { return d.SetPrivilege(username, database, p) })
+}
+func (m *execMeta) SetAdminPrivilege(username string, admin bool) error {
+	return m.apply(func(d *meta.Data) error { return d.SetAdminPrivilege(username, admin) })
+}
+func (m *execMeta) DropUser(name string) error {
+	return m.apply(func(d *meta.Data) error { return d.DropUser(name) })
+}
+func (m *execMeta) UpdateUser(name, password string) error {
+	return m.apply(func(d *meta.Data) error { return d.UpdateUser(name, m.e.hashStr(m.e.nextHash)) })
 }
 func (r *recorder) WritePoints(database, rp string, cl models.ConsistencyLevel, user meta.User, points []models.Point) error {
 	r.mu.Lock()
@@ -113,6 +152,8 @@ type env struct {
 	hOpen   *httpd.Handler // auth off: used only to measure how many statements reach the executor
 	hashes  []string       // pool: id -> bcrypt hash string
 	hashID  map[string]int
+	master   *meta.Data // meta-store value of the running session (nil outside sessions)
+	nextHash int        // hash id SET PASSWORD stores next (chosen by the harness: a pool hash of the new password)
 }
 
 // password pool; hash id = 2*pwIndex + variant (two different hashes per password)
@@ -169,7 +210,7 @@ func newEnv() *env {
 	if err := e.c.Open(); err != nil {
 		panic(err)
 	}
-	e.rec.real = &coordinator.StatementExecutor{MetaClient: e.c}
+	e.rec.real = &coordinator.StatementExecutor{MetaClient: &execMeta{Client: e.c, e: e}}
 	e.qa = meta.NewQueryAuthorizer(e.c)
 	e.wa = meta.NewWriteAuthorizer(e.c)
 	e.hSecret = newHandler(e, true, sharedSecret)
@@ -558,21 +599,32 @@ func runHist(e *env, o *hx.Out, d histD, origin string) {
 			continue
 		case "auth":
 			code := 0
+			ru := "None"
+			var ruSeen interface{}
 			func() {
 				defer func() {
 					if r := recover(); r != nil {
 						code = 99
 					}
 				}()
-				_, err := e.c.Authenticate(ev.Name, ev.PW)
+				u, err := e.c.Authenticate(ev.Name, ev.PW)
 				code = authCode(err)
+				if err == nil {
+					if ui, ok := u.(*meta.UserInfo); ok && ui != nil {
+						seen := e.usersSeen([]meta.UserInfo{*ui})
+						ru = "(Some (" + coqUser(seen[0]) + "))"
+						ruSeen = seen[0]
+					} else {
+						code = 98 // success without a user value
+					}
+				}
 			}()
 			if code == 0 {
 				nAuthOK++
 			}
 			cc, view := e.cacheSeen()
-			evs = append(evs, fmt.Sprintf("XAuth %s %s %d %s", hx.CoqStr(ev.Name), hx.CoqStr(ev.PW), code, cc))
-			obs = append(obs, map[string]interface{}{"auth": code, "cache": view})
+			evs = append(evs, fmt.Sprintf("XAuth %s %s %d %s %s", hx.CoqStr(ev.Name), hx.CoqStr(ev.PW), code, ru, cc))
+			obs = append(obs, map[string]interface{}{"auth": code, "user": ruSeen, "cache": view})
 			o.Count(fmt.Sprintf("hist:auth:res%d", code))
 			continue
 		default:
@@ -700,6 +752,73 @@ func serve(h *httpd.Handler, r *http.Request) (status int, panicked bool) {
 	return w.Code, panicked
 }
 
+// execReq serves one request on handler h and returns its Coq form and what was observed.
+func execReq(e *env, o *hx.Out, h *httpd.Handler, rd ReqD) (coqReq string, status, executed int, fca bool) {
+	switch rd.Kind {
+	case "query":
+		hasQ := rd.HasQ && strings.TrimSpace(rd.Q) != ""
+		parseOK := false
+		stm := "[]"
+		reach := 0
+		if hasQ {
+			q, err := influxql.ParseQuery(rd.Q)
+			if err == nil {
+				parseOK = true
+				stm = coqStmts(q, o)
+				if len(q.Statements) > 0 {
+					if cu, ok := q.Statements[0].(*influxql.CreateUserStatement); ok && cu.Admin {
+						fca = true
+					}
+				}
+				// how many statements the executor loop hands over once authorised
+				saved := e.rec.userStmts
+				e.rec.userStmts = false
+				e.rec.reset()
+				open := rd
+				open.Cred = CredD{}
+				serve(e.hOpen, buildRequest(open))
+				reach = e.rec.stmts
+				e.rec.userStmts = saved
+				if reach != len(q.Statements) {
+					o.Count("req:query:executor-loop-stops-early")
+				}
+			}
+		}
+		e.rec.reset()
+		st, pan := serve(h, buildRequest(rd))
+		status, executed = st, e.rec.stmts
+		if pan {
+			status = 599
+		}
+		coqReq = fmt.Sprintf("RQuery %s %s %s %s %s %d", coqCred(rd.Cred), hx.CoqBool(hasQ), hx.CoqBool(parseOK), stm, hx.CoqStr(rd.DB), reach)
+	case "write", "write2":
+		e.rec.reset()
+		st, pan := serve(h, buildRequest(rd))
+		status, executed = st, len(e.rec.writes)
+		if pan {
+			status = 599
+		}
+		for _, w := range e.rec.writes {
+			if w != rd.DB {
+				status = 598 // wrote somewhere else than asked
+			}
+		}
+		coqReq = fmt.Sprintf("RWrite %s %s %s", hx.CoqBool(rd.Kind == "write2"), coqCred(rd.Cred), hx.CoqStr(rd.DB))
+	default:
+		panic("unknown request kind " + rd.Kind)
+	}
+	o.Count(fmt.Sprintf("req:%s:status%d", rd.Kind, status))
+	carrier := rd.Cred.Hdr
+	if rd.Cred.QU != "" && rd.Cred.QP != "" {
+		carrier = "params+" + carrier
+	}
+	if carrier == "" {
+		carrier = "none"
+	}
+	o.Count("req:carrier:" + carrier)
+	return
+}
+
 func runReqCase(e *env, o *hx.Out, d reqCaseD, origin string) {
 	o.Begin("req", d)
 	e.resetNode()
@@ -713,74 +832,12 @@ func runReqCase(e *env, o *hx.Out, d reqCaseD, origin string) {
 	nontrivial := false
 	sig := []string{}
 	for _, rd := range d.Reqs {
-		var coqReq string
-		executed := 0
-		status := 0
-		fca := false
-		switch rd.Kind {
-		case "query":
-			hasQ := rd.HasQ && strings.TrimSpace(rd.Q) != ""
-			parseOK := false
-			stm := "[]"
-			reach := 0
-			if hasQ {
-				q, err := influxql.ParseQuery(rd.Q)
-				if err == nil {
-					parseOK = true
-					stm = coqStmts(q, o)
-					if len(q.Statements) > 0 {
-						if cu, ok := q.Statements[0].(*influxql.CreateUserStatement); ok && cu.Admin {
-							fca = true
-						}
-					}
-					// how many statements the executor loop hands over once authorised
-					e.rec.reset()
-					open := rd
-					open.Cred = CredD{}
-					serve(e.hOpen, buildRequest(open))
-					reach = e.rec.stmts
-					if reach != len(q.Statements) {
-						o.Count("req:query:executor-loop-stops-early")
-					}
-				}
-			}
-			e.rec.reset()
-			st, pan := serve(h, buildRequest(rd))
-			status, executed = st, e.rec.stmts
-			if pan {
-				status = 599
-			}
-			coqReq = fmt.Sprintf("RQuery %s %s %s %s %s %d", coqCred(rd.Cred), hx.CoqBool(hasQ), hx.CoqBool(parseOK), stm, hx.CoqStr(rd.DB), reach)
-			if executed > 1 && len(d.Users) == 0 {
-				o.Count("req:bootstrap:trailing-statements-executed")
-			}
-		case "write", "write2":
-			e.rec.reset()
-			st, pan := serve(h, buildRequest(rd))
-			status, executed = st, len(e.rec.writes)
-			if pan {
-				status = 599
-			}
-			for _, w := range e.rec.writes {
-				if w != rd.DB {
-					status = 598 // wrote somewhere else than asked
-				}
-			}
-			coqReq = fmt.Sprintf("RWrite %s %s %s", hx.CoqBool(rd.Kind == "write2"), coqCred(rd.Cred), hx.CoqStr(rd.DB))
-		default:
-			panic("unknown request kind " + rd.Kind)
+		coqReq, status, executed, fca := execReq(e, o, h, rd)
+		if rd.Kind == "query" && executed > 1 && len(d.Users) == 0 {
+			o.Count("req:bootstrap:trailing-statements-executed")
 		}
 		items = append(items, fmt.Sprintf("(%s, (%d, %d))", coqReq, status, executed))
 		obs = append(obs, map[string]interface{}{"status": status, "executed": executed, "kind": rd.Kind, "first_creates_admin": fca})
-		o.Count(fmt.Sprintf("req:%s:status%d", rd.Kind, status))
-		carrier := rd.Cred.Hdr
-		if rd.Cred.QU != "" && rd.Cred.QP != "" {
-			carrier = "params+" + carrier
-		}
-		if carrier == "" {
-			carrier = "none"
-		}
-		o.Count("req:carrier:" + carrier)
 		if executed > 0 || status == 403 {
 			nontrivial = true
 		}
@@ -790,6 +847,129 @@ func runReqCase(e *env, o *hx.Out, d reqCaseD, origin string) {
 	coq := fmt.Sprintf("CReq %s %s %s %s %s", coqBC(), coqUsers(d.Users), coqStrs(d.DBs), hx.CoqBool(d.Secret), hx.CoqList(items))
 	o.Emit(hx.Case{Kind: "req", Coq: coq, Desc: d, Obs: obs, Nontrivial: nontrivial,
 		Sig: "req:" + mustJSON(d.Users) + strings.Join(sig, "#"), Origin: origin})
+}
+
+// ---------------------------------------------------------------- sessions: tables, requests, user statements
+
+type SeqStepD struct {
+	Op    string   `json:"op"` // set | req | stmt
+	Users []UserD  `json:"users,omitempty"`
+	DBs   []string `json:"dbs,omitempty"`
+	Req   *ReqD    `json:"req,omitempty"`
+	Q     string   `json:"q,omitempty"`    // stmt: one GRANT/REVOKE/SET PASSWORD/DROP USER statement
+	DB    string   `json:"db,omitempty"`   // stmt: db= parameter
+	Cred  *CredD   `json:"cred,omitempty"` // stmt: who sends it
+	Hash  int      `json:"hash,omitempty"` // stmt SET PASSWORD: pool hash id stored for the new password
+}
+
+type seqD struct {
+	Secret bool       `json:"secret"`
+	Steps  []SeqStepD `json:"steps"`
+}
+
+func coqXStmt(st influxql.Statement, hash int) string {
+	switch t := st.(type) {
+	case *influxql.GrantStatement:
+		return fmt.Sprintf("(XGrant %s %s %d)", hx.CoqStr(t.User), hx.CoqStr(t.On), int(t.Privilege))
+	case *influxql.RevokeStatement:
+		return fmt.Sprintf("(XRevoke %s %s %d)", hx.CoqStr(t.User), hx.CoqStr(t.On), int(t.Privilege))
+	case *influxql.GrantAdminStatement:
+		return fmt.Sprintf("(XGrantAdmin %s)", hx.CoqStr(t.User))
+	case *influxql.RevokeAdminStatement:
+		return fmt.Sprintf("(XRevokeAdmin %s)", hx.CoqStr(t.User))
+	case *influxql.SetPasswordUserStatement:
+		return fmt.Sprintf("(XSetPassword %s %d)", hx.CoqStr(t.Name), hash)
+	case *influxql.DropUserStatement:
+		return fmt.Sprintf("(XDropUser %s)", hx.CoqStr(t.Name))
+	}
+	return "XOther"
+}
+
+func runSeq(e *env, o *hx.Out, d seqD, origin string) {
+	o.Begin("seq", d)
+	e.resetNode()
+	e.master = &meta.Data{}
+	defer func() { e.master = nil; e.rec.userStmts = false }()
+	h := e.hNoSec
+	if d.Secret {
+		h = e.hSecret
+	}
+	items := []string{}
+	obs := []interface{}{}
+	nStmtOK, nReqAfter, nExec := 0, 0, 0
+	for _, sd := range d.Steps {
+		switch sd.Op {
+		case "set":
+			e.master = e.dataOf(sd.Users, sd.DBs)
+			e.publish(e.master.Clone())
+			items = append(items, fmt.Sprintf("(TSet (mkM %s %s), OSet)", coqUsers(sd.Users), coqStrs(sd.DBs)))
+			obs = append(obs, "set")
+			o.Count("seq:step:set")
+		case "req":
+			coqReq, status, executed, _ := execReq(e, o, h, *sd.Req)
+			items = append(items, fmt.Sprintf("(TReq (%s), OReq (%d, %d))", coqReq, status, executed))
+			obs = append(obs, map[string]interface{}{"status": status, "executed": executed})
+			if nStmtOK > 0 {
+				nReqAfter++
+			}
+			if executed > 0 {
+				nExec++
+			}
+			o.Count("seq:step:req")
+		case "stmt":
+			q, err := influxql.ParseQuery(sd.Q)
+			if err != nil || len(q.Statements) != 1 {
+				o.Count("seq:stmt-unparsable-skipped")
+				continue
+			}
+			e.nextHash = sd.Hash
+			e.rec.userStmts = true
+			e.rec.reset()
+			cr := CredD{}
+			if sd.Cred != nil {
+				cr = *sd.Cred
+			}
+			w := httptest.NewRecorder()
+			status := 0
+			func() {
+				defer func() {
+					if rec := recover(); rec != nil {
+						status = 599
+					}
+				}()
+				h.ServeHTTP(w, buildRequest(ReqD{Kind: "query", Method: "POST", Q: sd.Q, HasQ: true, DB: sd.DB, Cred: cr}))
+			}()
+			e.rec.userStmts = false
+			if status == 0 {
+				status = w.Code
+			}
+			executed := e.rec.stmts
+			ok := false
+			if status == 200 && executed > 0 {
+				var resp struct {
+					Results []struct {
+						Error string `json:"error"`
+					} `json:"results"`
+				}
+				if json.Unmarshal(w.Body.Bytes(), &resp) == nil && len(resp.Results) == 1 && resp.Results[0].Error == "" {
+					ok = true
+				}
+			}
+			seen := e.usersSeen(e.c.Users())
+			items = append(items, fmt.Sprintf("(TStmt %s %s %s %s, OStmt %d %d %s %s)", coqCred(cr), coqStmts(q, o), hx.CoqStr(sd.DB),
+				coqXStmt(q.Statements[0], sd.Hash), status, executed, hx.CoqBool(ok), coqUsers(seen)))
+			obs = append(obs, map[string]interface{}{"status": status, "executed": executed, "ok": ok, "users_after": seen})
+			if ok {
+				nStmtOK++
+			}
+			o.Count(fmt.Sprintf("seq:stmt:%T:ok=%v", q.Statements[0], ok))
+		default:
+			panic("unknown session step " + sd.Op)
+		}
+	}
+	coq := fmt.Sprintf("CSeq %s %s %s", coqBC(), hx.CoqBool(d.Secret), hx.CoqList(items))
+	o.Emit(hx.Case{Kind: "seq", Coq: coq, Desc: d, Obs: obs, Nontrivial: nStmtOK > 0 && nReqAfter > 0 && nExec > 0,
+		Sig: "seq:" + mustJSON(d), Origin: origin})
 }
 
 // ---------------------------------------------------------------- SHOW DATABASES / SHOW CONTINUOUS QUERIES
@@ -1392,6 +1572,186 @@ func designedMixed(e *env, o *hx.Out) {
 	}
 }
 
+// ---- sessions
+
+var privWord = map[int]string{1: "READ", 2: "WRITE", 3: "ALL"}
+var simplePW = []int{0, 1, 6} // pool passwords that can be written in a SET PASSWORD literal
+
+func basicOf(name, pw string) *CredD { return &CredD{Hdr: "basic", Raw: name + ":" + pw} }
+
+func probeReqs(name, pw string) []SeqStepD {
+	cr := *basicOf(name, pw)
+	return []SeqStepD{
+		{Op: "req", Req: &ReqD{Kind: "query", Method: "GET", Q: "SELECT * FROM cpu", HasQ: true, DB: "db0", Cred: cr}},
+		{Op: "req", Req: &ReqD{Kind: "write", DB: "db0", Cred: cr}},
+		{Op: "req", Req: &ReqD{Kind: "query", Method: "POST", Q: "DELETE FROM cpu", HasQ: true, DB: "db0", Cred: cr}},
+		{Op: "req", Req: &ReqD{Kind: "query", Method: "GET", Q: "SELECT * FROM cpu", HasQ: true, DB: "db1", Cred: cr}},
+		{Op: "req", Req: &ReqD{Kind: "query", Method: "GET", Q: "SHOW USERS", HasQ: true, DB: "db0", Cred: cr}},
+	}
+}
+
+// every held x granted/revoked combination, admin flag set/unset, password change, removal -
+// each driven through the real executor by an administrator, with the affected user's
+// requests (same credentials, so the second round goes through the credential cache) before and after
+func designedSeq(e *env, o *hx.Out) {
+	root := UserD{Name: "root", Hash: 0, Admin: true}
+	rootCred := basicOf("root", "pw0")
+	probes := func(name, pw string, full bool) []SeqStepD {
+		p := probeReqs(name, pw)
+		if full {
+			return p
+		}
+		return []SeqStepD{p[0], p[1], p[3]} // read db0, write db0, read db1 (must stay untouched)
+	}
+	session := func(bob UserD, bobPW string, stmt string, hash int, after ...SeqStepD) {
+		full := bob.Admin || strings.Contains(stmt, "PRIVILEGES") || strings.Contains(stmt, "ghost")
+		steps := []SeqStepD{{Op: "set", Users: []UserD{root, bob}, DBs: []string{"db0", "db1"}}}
+		steps = append(steps, probes("bob", bobPW, full)...)
+		steps = append(steps, SeqStepD{Op: "stmt", Q: stmt, DB: "db0", Cred: rootCred, Hash: hash})
+		steps = append(steps, probes("bob", bobPW, full)...)
+		steps = append(steps, after...)
+		runSeq(e, o, seqD{Secret: true, Steps: steps}, "designed")
+	}
+	for held := -1; held <= 3; held++ { // -1: no entry at all
+		privs := map[string]int{"db1": 1}
+		if held >= 0 {
+			privs["db0"] = held
+		}
+		bob := UserD{Name: "bob", Hash: 2, Privs: privs}
+		for p := 1; p <= 3; p++ {
+			session(bob, "secret1", fmt.Sprintf("REVOKE %s ON db0 FROM bob", privWord[p]), 0)
+			session(bob, "secret1", fmt.Sprintf("GRANT %s ON db0 TO bob", privWord[p]), 0)
+		}
+	}
+	for _, adm := range []bool{true, false} {
+		bob := UserD{Name: "bob", Hash: 2, Admin: adm, Privs: map[string]int{"db0": 1}}
+		session(bob, "secret1", "REVOKE ALL PRIVILEGES FROM bob", 0)
+		session(bob, "secret1", "GRANT ALL PRIVILEGES TO bob", 0)
+		session(bob, "secret1", "SET PASSWORD FOR bob = 'pw0'", 1, probeReqs("bob", "pw0")...)
+		session(bob, "secret1", "SET PASSWORD FOR bob = 'secret1'", 3) // same password, new hash
+		session(bob, "secret1", "DROP USER bob", 0)
+	}
+	bob := UserD{Name: "bob", Hash: 2, Privs: map[string]int{"db0": 3}}
+	// refused or failing statements change nothing
+	for _, q := range []string{"REVOKE ALL ON db0 FROM ghost", "REVOKE READ ON db0 FROM ghost", "GRANT READ ON nosuchdb TO bob", "DROP USER ghost", "SET PASSWORD FOR ghost = 'pw0'"} {
+		session(bob, "secret1", q, 0)
+	}
+	for _, cr := range []*CredD{basicOf("bob", "secret1"), basicOf("root", "wrong"), {}, {Hdr: "bearer", JU: "bob"}} {
+		steps := []SeqStepD{{Op: "set", Users: []UserD{root, bob, {Name: "carol", Hash: 4, Privs: map[string]int{"db0": 1}}}, DBs: []string{"db0", "db1"}}}
+		for _, q := range []string{"GRANT ALL PRIVILEGES TO bob", "GRANT ALL ON db1 TO bob", "REVOKE READ ON db0 FROM carol", "DROP USER root", "SET PASSWORD FOR root = 'pw0'"} {
+			steps = append(steps, SeqStepD{Op: "stmt", Q: q, DB: "db0", Cred: cr, Hash: 1})
+		}
+		steps = append(steps, probeReqs("bob", "secret1")...)
+		runSeq(e, o, seqD{Secret: true, Steps: steps}, "designed")
+	}
+	// dropping / demoting the only administrator: the middleware gate opens, nothing may run
+	steps := []SeqStepD{{Op: "set", Users: []UserD{root, bob}, DBs: []string{"db0"}}}
+	steps = append(steps, probeReqs("bob", "secret1")[:2]...)
+	steps = append(steps, SeqStepD{Op: "stmt", Q: "REVOKE ALL PRIVILEGES FROM root", DB: "", Cred: rootCred})
+	steps = append(steps, probeReqs("bob", "secret1")...)
+	steps = append(steps, SeqStepD{Op: "req", Req: &ReqD{Kind: "write", DB: "db0"}})
+	runSeq(e, o, seqD{Secret: true, Steps: steps}, "designed")
+}
+
+func genSeq(r *hx.Rand) seqD {
+	d := seqD{Secret: !r.Chance(10)}
+	mkTable := func() ([]UserD, []string) {
+		us := genUsers(r)
+		// make sure somebody can administer: first user admin with a usable password (mostly)
+		if len(us) > 0 && r.Chance(85) {
+			us[0].Admin = true
+			us[0].Hash = simplePW[r.Intn(len(simplePW))] * 2
+		}
+		dbs := []string{}
+		for _, db := range dbNames {
+			if r.Chance(85) {
+				dbs = append(dbs, db)
+			}
+		}
+		return us, dbs
+	}
+	users, dbs := mkTable()
+	d.Steps = append(d.Steps, SeqStepD{Op: "set", Users: users, DBs: dbs})
+	pwNow := map[string]string{}
+	for _, u := range users {
+		if p, ok := pwOf(u.Hash); ok {
+			pwNow[u.Name] = p
+		}
+	}
+	anyUser := func() string {
+		if len(users) > 0 && r.Chance(90) {
+			return users[r.Intn(len(users))].Name
+		}
+		return userNames[r.Intn(len(userNames))]
+	}
+	n := 4 + r.Intn(6)
+	for i := 0; i < n; i++ {
+		switch k := r.Intn(10); {
+		case k < 5:
+			name := anyUser()
+			pw := pwNow[name]
+			if r.Chance(12) {
+				pw = passwords[r.Intn(len(passwords))]
+			}
+			cr := CredD{Hdr: "basic", Raw: name + ":" + pw}
+			if r.Chance(25) && name != "" && pw != "" {
+				cr = CredD{QU: name, QP: pw}
+			}
+			rq := ReqD{Cred: cr, DB: genDB(r)}
+			switch r.Intn(4) {
+			case 0:
+				rq.Kind = "write"
+			default:
+				rq.Kind, rq.Method, rq.HasQ = "query", "POST", true
+				rq.Q = []string{"SELECT * FROM cpu", "DELETE FROM cpu", "SHOW USERS", "SELECT * INTO out FROM cpu", "SHOW MEASUREMENTS", "DROP DATABASE db1", "SELECT * FROM db1..cpu"}[r.Intn(7)]
+			}
+			d.Steps = append(d.Steps, SeqStepD{Op: "req", Req: &rq})
+		case k < 9:
+			target := anyUser()
+			sender := ""
+			if len(users) > 0 {
+				sender = users[0].Name
+				if r.Chance(15) {
+					sender = anyUser()
+				}
+			}
+			st := SeqStepD{Op: "stmt", DB: genDB(r), Cred: basicOf(sender, pwNow[sender])}
+			db := dbNames[r.Intn(len(dbNames))]
+			switch r.Intn(9) {
+			case 0, 1, 2:
+				st.Q = fmt.Sprintf("REVOKE %s ON %s FROM %q", privWord[1+r.Intn(3)], db, target)
+			case 3, 4:
+				st.Q = fmt.Sprintf("GRANT %s ON %s TO %q", privWord[1+r.Intn(3)], db, target)
+			case 5:
+				st.Q = fmt.Sprintf("REVOKE ALL PRIVILEGES FROM %q", target)
+			case 6:
+				st.Q = fmt.Sprintf("GRANT ALL PRIVILEGES TO %q", target)
+			case 7:
+				pi := simplePW[r.Intn(len(simplePW))]
+				st.Hash = 2*pi + r.Intn(2)
+				st.Q = fmt.Sprintf("SET PASSWORD FOR %q = '%s'", target, passwords[pi])
+				// bookkeeping for later credentials (whether or not it is authorised: senders are mostly admins)
+				if _, ok := pwNow[target]; ok && sender == users[0].Name && users[0].Admin {
+					pwNow[target] = passwords[pi]
+				}
+			default:
+				st.Q = fmt.Sprintf("DROP USER %q", target)
+			}
+			d.Steps = append(d.Steps, st)
+		default:
+			users, dbs = mkTable()
+			pwNow = map[string]string{}
+			for _, u := range users {
+				if p, ok := pwOf(u.Hash); ok {
+					pwNow[u.Name] = p
+				}
+			}
+			d.Steps = append(d.Steps, SeqStepD{Op: "set", Users: users, DBs: dbs})
+		}
+	}
+	return d
+}
+
 func genAuthz(r *hx.Rand) authzD {
 	d := authzD{Users: genUsers(r), Q: genQuery(r), DB: genDB(r)}
 	switch r.Intn(10) {
@@ -1627,6 +1987,10 @@ func runInput(e *env, o *hx.Out, in hx.Input, origin string) {
 		var d reqCaseD
 		must(json.Unmarshal(in.Desc, &d))
 		runReqCase(e, o, d, origin)
+	case "seq":
+		var d seqD
+		must(json.Unmarshal(in.Desc, &d))
+		runSeq(e, o, d, origin)
 	case "show":
 		var d showD
 		must(json.Unmarshal(in.Desc, &d))
@@ -1659,6 +2023,7 @@ func main() {
 	}
 	designed(e, o)
 	designedMixed(e, o)
+	designedSeq(e, o)
 	r := hx.NewRand(f.Seed)
 	races := 1
 	if f.Tier == "thorough" {
@@ -1669,8 +2034,10 @@ func main() {
 	}
 	for i := 0; i < f.N; i++ {
 		switch k := i % 20; {
-		case k < 9:
+		case k < 6:
 			runReqCase(e, o, genReqCase(r), "gen")
+		case k < 9:
+			runSeq(e, o, genSeq(r), "gen")
 		case k < 11:
 			runShow(e, o, genShow(r), "gen")
 		case k < 13:
